@@ -370,7 +370,24 @@ def run(ctx):
     # glibc scribbles over freed memory (the harness calls mallopt(M_PERTURB)); chunks that go to the thread
     # cache are skipped by glibc >= 2.26, so the cache is switched off for the harness process
     henv = dict(os.environ, H_TIMEOUT='3', GLIBC_TUNABLES='glibc.malloc.tcache_count=0')       # a case takes microseconds; a hang is an observation
-    run_impl = lambda cs: ctx.run_lines(h, cs, env=henv, timeout=3000)[1]
+
+    def retrying(exe, env, slow):
+        """A case whose child was killed by the watchdog or printed no record at all (fork refused under
+        memory pressure) is run once more on its own with a longer watchdog; only that second
+        observation counts.  A genuine hang or crash shows again; a loaded machine does not."""
+        env2 = dict(env, H_TIMEOUT=str(slow))
+        def run(cs):
+            out = ctx.run_lines(exe, cs, env=env, timeout=3000)[1]
+            if len(out) != len(cs):
+                return out
+            for i, (c, o) in enumerate(zip(cs, out)):
+                if 'TIMEOUT' in o or not o.startswith('new'):
+                    r = ctx.run_lines(exe, [c], env=env2, timeout=600)[1]
+                    if len(r) == 1:
+                        out[i] = r[0]
+            return out
+        return run
+    run_impl = retrying(h, henv, 8)
     run_model = lambda cs: ctx.run_lines(drv, cs, args=['model'])[1]
     run_spec = lambda cs: ctx.run_lines(drv, cs, args=['spec'])[1]
     d = vlib.Differential(ctx, 'table', run_impl, run_model, run_spec, oracle, corr, nontrivial, split, join)
@@ -416,7 +433,7 @@ def run(ctx):
         ha = ctx.build_harness('table_wb.c', tag='asan', name='table_wb_asan', whitebox='Table',
                                extra=['-fsanitize=address', '-fno-omit-frame-pointer'])
         aenv = dict(os.environ, H_TIMEOUT='10', ASAN_OPTIONS='detect_leaks=0:abort_on_error=1:allocator_may_return_null=1')
-        run_asan = lambda cs: ctx.run_lines(ha, cs, env=aenv, timeout=3000)[1]
+        run_asan = retrying(ha, aenv, 40)
         da = vlib.Differential(ctx, 'table_asan', run_asan, run_model, run_spec, oracle, corr, nontrivial, split, join)
         nasan = 250 if quick else 5000
         ctx.cov['streams']['alias stream replayed under AddressSanitizer'] = nasan
